@@ -5,6 +5,7 @@
    name table (fresh unique helper names). *)
 From Coq Require Import List String Bool Arith.
 From Verif Require Import Gen.Worklist Gen.Imports.
+From Verif Require Regen.Model Regen.Proofs Regen.Complete.
 Import ListNotations.
 
 (* "every helper needed transitively": whatever the helper-request relation of the plugins
@@ -57,3 +58,31 @@ Theorem C01_imports_are_used : forall calls t as_ t',
   forall a p, lookup a t' = Some p -> lookup a t = Some p \/ In a as_.
 Proof. exact run_aliases_used. Qed.
 Print Assumptions C01_imports_are_used.
+
+(* "every derive call, including calls nested in other derive calls, ... resolves to exactly one
+   generated function that accepts its arguments", also when types "only become inferable after an
+   earlier generation pass": in the model of the write / reload / retry loop (Regen/Model.v, the one
+   C07 is about), on every well-formed package and whatever derived.gen.go held before, the run
+   succeeds within max(1, nesting depth) passes and the output has, for every call, an entry with
+   the call's plugin, name and argument type, and no other entry of that name ... *)
+Theorem C01_every_call_resolves_to_one_function :
+  forall (p : Regen.Model.package) (old : Regen.Model.disk), Regen.Model.wf p = true ->
+  forall c, In c (Regen.Model.calls p) ->
+  exists n es t,
+    Regen.Model.regen Regen.Model.fixed p old = Regen.Model.ROk (Some es) n /\
+    n <= Nat.max 1 (Regen.Model.max_depth p) /\
+    Regen.Model.ety (Regen.Model.ca c) = Some t /\
+    In (Regen.Model.mkEntry (Regen.Model.ck c) (Regen.Model.cn c) t) es /\
+    (forall e, In e es -> Regen.Model.en e = Regen.Model.cn c ->
+               e = Regen.Model.mkEntry (Regen.Model.ck c) (Regen.Model.cn c) t).
+Proof. exact Regen.Complete.regen_resolves_every_call. Qed.
+Print Assumptions C01_every_call_resolves_to_one_function.
+
+(* ... and nothing is generated that no call asks for *)
+Theorem C01_only_what_is_called :
+  forall (p : Regen.Model.package) (old : Regen.Model.disk), Regen.Model.wf p = true ->
+  forall n es, Regen.Model.regen Regen.Model.fixed p old = Regen.Model.ROk (Some es) n ->
+  forall e, In e es -> exists c, In c (Regen.Model.calls p) /\ Regen.Model.ck c = Regen.Model.ek e /\
+    Regen.Model.cn c = Regen.Model.en e /\ Regen.Model.ety (Regen.Model.ca c) = Some (Regen.Model.et e).
+Proof. exact Regen.Complete.regen_only_what_is_called. Qed.
+Print Assumptions C01_only_what_is_called.
